@@ -338,16 +338,16 @@ func (c c09Case) script() string {
 
 // c09Obs is what one engine reports for a case.
 type c09Obs struct {
-	C, I, S   string
-	SInner    string
-	Same      string // "" (not evaluated) | "true" | "false": log(v) == log(casted)
+	C, I, S string
+	SInner  string
+	Same    string // "" (not evaluated) | "true" | "false": log(v) == log(casted)
 	// run-time types (as logged) of v, of the cast result and of the unwrapped inner value
 	VType, BackType, InnerType string
-	Forced    bool   // the force cast did not abort
-	AbortRoot string
-	Raw       []string
-	Class     string
-	Err       string
+	Forced                     bool // the force cast did not abort
+	AbortRoot                  string
+	Raw                        []string
+	Class                      string
+	Err                        string
 }
 
 func c09Observe(c c09Case, e host.Engine) c09Obs {
